@@ -72,6 +72,16 @@ var sigArgShapes = []func() Args{
 	func() Args { return Args{Values: []Arg{v(1)}, Processed: []string{"true"}} },
 	func() Args { return Args{Values: []Arg{v(2)}, Processed: []string{"true"}} },
 	func() Args { return Args{Values: []Arg{v(ptr1)}, Processed: []string{"*T(0xc000012340)"}} },
+	// aggregates with a typed rendering: members differ only inside the aggregate
+	func() Args {
+		return Args{Values: []Arg{agg(v(1), v(ptr1)), v(5)}, Processed: []string{"pair{0x1, 0xc000012340}", "5"}}
+	},
+	func() Args {
+		return Args{Values: []Arg{agg(v(1), v(ptr2)), v(5)}, Processed: []string{"pair{0x1, 0xc000045678}", "5"}}
+	},
+	func() Args {
+		return Args{Values: []Arg{agg(v(2), v(ptr1)), v(5)}, Processed: []string{"pair{0x2, 0xc000012340}", "5"}}
+	},
 }
 
 // setSrc fills the source fields of a Call from public fields only (what the parser
@@ -270,7 +280,37 @@ func exactArgEqual(a, b *Arg) bool {
 
 // checkGeneralises verifies that out truthfully generalises the argument lists of
 // all members at one frame (recursively).
+// argsValuesEqual: the raw values of two argument lists are the same, deep.
+func argsValuesEqual(a, b *Args) bool {
+	if len(a.Values) != len(b.Values) || a.Elided != b.Elided {
+		return false
+	}
+	for i := range a.Values {
+		x, y := &a.Values[i], &b.Values[i]
+		if x.IsAggregate != y.IsAggregate {
+			return false
+		}
+		if x.IsAggregate {
+			if !argsValuesEqual(&x.Fields, &y.Fields) {
+				return false
+			}
+		} else if !exactArgEqual(x, y) {
+			return false
+		}
+	}
+	return true
+}
+
 func checkGeneralises(out *Args, members []*Args, path string) string {
+	// the typed rendering is what is displayed when present: it must not be shown for
+	// a call line on which the members' values differ (it states one member's values)
+	if len(out.Processed) != 0 {
+		for _, m := range members[1:] {
+			if !argsValuesEqual(members[0], m) {
+				return fmt.Sprintf("%s: members differ on this call line but one member's typed rendering %q is shown", path, out.Processed)
+			}
+		}
+	}
 	for _, m := range members {
 		if len(m.Values) != len(out.Values) {
 			return fmt.Sprintf("%s: %d values shown, a member has %d", path, len(out.Values), len(m.Values))
